@@ -216,6 +216,9 @@ def worker(case, led):
             led.check(close(S.dense(r), Od @ da), "post:Mpo.apply:charged_dense_product", "Mpo.apply", "O|a> wrong", key + (str(q), "apply"), fields, rep)
             led.check(np.all(np.asarray(r.qntot).reshape(-1) == want_q) and not S.qnv_violations(r), "post:Mpo.apply:sector_shift", "Mpo.apply",
                       f"sector after O: {r.qntot}, expected {want_q}; qnv={S.qnv_violations(r)[:1]}", key + (str(q), "shift"), fields, rep)
+            led.check(np.all(np.asarray(a0.qntot).reshape(-1) == np.asarray(q).reshape(-1)) and not S.qnv_violations(a0) and close(S.dense(a0), da),
+                      "frame:Mpo.apply:operand_sector_and_labels", "Mpo.apply",
+                      f"applying a charged operator changed the operand: qntot={np.asarray(a0.qntot).tolist()} (was {q})", key + (str(q), "frame"), fields, rep)
             if np.abs(Od @ da).max() > 1e-12:
                 try:
                     back = Ot.apply(r)
